@@ -46,7 +46,7 @@ class PanderaConfig:
 
 def _config_from_env_vars():
     validation_enabled = (
-        os.environ.get("PANDERA_VALIDATION_ENABLED", None) == "True" or True
+        os.environ.get("PANDERA_VALIDATION_ENABLED", "True") != "False"
     )
     validation_depth = os.environ.get("PANDERA_VALIDATION_DEPTH", None)
     if validation_depth is not None:
